@@ -37,7 +37,20 @@ def _rewrite_func(match):
 
 
 def osc_rematch_pattern(pattern, address):
-    pattern = re.sub(_rewrite_pattern, _rewrite_func, pattern)
+    depth = 0
+
+    def rewrite_func(match):
+        nonlocal depth
+        symbol = match.group(0)
+        if symbol == '{':
+            depth += 1
+        elif symbol == '}':
+            depth -= 1
+        elif symbol == ',' and depth < 1:
+            return ','  # Only separates alternatives inside braces.
+        return _rewrite_symbols[symbol]
+
+    pattern = re.sub(_rewrite_pattern, rewrite_func, pattern)
     return re.fullmatch(pattern, address) is not None
 
 
